@@ -105,4 +105,25 @@ theorem source_dropping_a_buffered_iterator_runs_no_code :
 
 end Surface
 
+section SurfaceApi
+open Orx.GenThms.Surface Orx.Gen
+
+/-- the whole inherent API of the crate's types and its free functions: no operation exists that moves a counter backwards or re-arms
+an exhausted iterator (the counters are reached through `fetch_add`, `store(len)` / `swap(len)` in `early_exit`, and loads only:
+`Generated/Orderings.lean`) -/
+theorem source_no_operation_rewinds :
+    fnsOf "" "AtomicCounter" = [["new", "fetch_and_add", "fetch_and_increment", "current", "store", "swap"]] ∧
+    fnsOf "" "ConIterOfSlice" = [["new", "as_slice"]] ∧ fnsOf "" "ConIterOfRange" = [["new", "range"]] ∧
+    fnsOf "" "ConIterOfVec" = [["new", "take_one", "take_slice", "split_off_right"]] ∧
+    fnsOf "" "ConIterOfArray" = [["new", "take_one", "take_slice", "split_off_right"]] ∧
+    fnsOf "" "ConIterOfIter" = [["new", "mut_iter", "progress_yielded_counter", "mark_completed", "complete_on_unwind"]] ∧
+    fnsOf "" "CompleteOnUnwind" = [["disarm"]] ∧ fnsOf "" "Taken" = [["new"]] ∧
+    fnsOf "" "Cloned" = [["new", "underlying_iter"]] ∧ fnsOf "" "Copied" = [["new", "underlying_iter"]] ∧
+    sameSet (implsOf "") ["AtomicCounter", "ConIterOfSlice", "ConIterOfRange", "ConIterOfVec", "ConIterOfArray", "ConIterOfIter",
+      "CompleteOnUnwind", "Taken", "Cloned", "Copied", "BufferedIter"] = true ∧
+    (surface.filter (fun r => r.tr == "fn")).map (·.fns) = [["fold"], ["for_each", "for_each_with_ids"]] :=
+  Orx.GenThms.Surface.the_inherent_api
+
+end SurfaceApi
+
 end Orx.Props.C05
